@@ -16,7 +16,7 @@ BlobSeq   == <<"Never", "Also", "Only">>
 Pick(seq, r) == seq[(r % Len(seq)) + 1]
 VocabSeq(a) == CASE a = "state" -> StateSeq [] a = "perm" -> PermSeq [] a = "rule" -> RuleSeq
 ClassSeq == <<"plain", "markup", "squote", "dquote", "bmp", "astral", "innerws", "newline", "padded", "empty", "blank">>
-NumSeq   == <<"numint", "numdec", "numsexa">>
+NumSeq   == <<"numint", "numdec", "numsexa", "numzero">>
 ClassIdx(c) == CHOOSE i \in 1..Len(ClassSeq) : ClassSeq[i] = c
 \* class used for attribute slots: the normalisation classes only apply to text
 AttrClass(c) == IF c \in NormClasses THEN "plain" ELSE c
@@ -27,7 +27,8 @@ AttrVal(k, a, c, r, pre) ==
 PartTextVal(tag, c, r, j) ==
   LET S == PartSchema[tag] IN
   CASE S.text = "vocab"  -> W(Pick(IF S.vocab = SwitchVocab THEN SwitchSeq ELSE StateSeq, r + j))
-    [] S.text = "number" -> IF (r + j) % 4 = 3 THEN NoVal ELSE V(Pick(NumSeq, r + j), "n" \o ToString(j))
+    [] S.text = "number" -> IF j = 2 /\ r = 0 /\ ClassIdx(c) % 3 = 0 THEN NoVal
+                            ELSE V(Pick(NumSeq, r + 2 * j + ClassIdx(c)), "n" \o ToString(j))
     [] S.text = "free"   -> IF (r + j) % 4 = 3 THEN NoVal
                             ELSE V(Pick(ClassSeq, ClassIdx(c) - 1 + j - 1), "t" \o ToString(j))
 MkPart(tag, c, r, j) ==
